@@ -412,11 +412,11 @@ def run(ctx):
 
     # ---------------------------------------------------------------- case streams
     trees = []           # (abstract tree, evalable)
-    small = exhaustive(3 if ctx.tier == 'thorough' else 2)
+    small = exhaustive(2)       # depth 3 exhaustively is 98 211 trees x renderings: 20+ GB in the thorough tier
     trees += [(e, True) for e in small]
-    if ctx.tier != 'thorough':
+    if True:
         e2 = small
-        for _ in range(ctx.n(2500, 0)):
+        for _ in range(ctx.n(2500, 40000)):
             r = rng.random()
             if r < 0.15:
                 trees.append(((rng.choice(['neg', 'pct']), rng.choice(e2)), True))
